@@ -276,4 +276,83 @@ def expandD (f : Fac) : Reg → List OpD → List Op
   | r, .deleteOwn ty :: rest =>
       if r.mapped ty then .delete (r.tmap ty) :: expandD f (delete r (r.tmap ty)) rest else expandD f r rest
 
+/-! ### Re-entrant creation (wave 6): `create_agent` called from inside a factory or from `initialize()`
+
+`create_agent(k, props)`:  `factory = agent_factories[k]` (KeyError: nothing happens) → the factory is called with
+`next_agent_id` as the id (a factory may itself call `create_agent`) → `agent.initialize()` (which may call
+`create_agent`, e.g. a firm hiring its workers) → `agents.append(agent)`, `agent_type_map[k].append(agent.id)`.
+WHERE `next_agent_id += 1` happens is the mechanism (`CfgN`, probed on every run by reading `model.next_agent_id` from
+inside a factory and from inside `initialize()`): before the factory call / between factory and `initialize()` /
+after the registration.  A creation is three tokens of a flat history, `enter k`, `facDone`, `leave`; nesting is
+bracketing, of any depth.  Registration order under nesting: a child is appended BEFORE its parent (the parent is
+registered when its `initialize()` has returned), so `model.agents` and the per-type lists are no longer ordered
+by id — they are ordered by completion. -/
+
+structure CfgN where
+  idReservedBeforeFactory : Bool
+  idReservedBeforeInitialize : Bool
+deriving DecidableEq, Repr
+
+def CfgN.good (n : CfgN) : Bool := n.idReservedBeforeFactory
+
+/-- a `create_agent` call that has not returned yet -/
+structure Frame where
+  id : Nat
+  key : Nat
+  inFactory : Bool
+deriving DecidableEq, Repr
+
+structure NReg where
+  r : Reg
+  stack : List Frame      -- innermost call first
+
+def NReg.init (reg : Nat → Bool) : NReg := { r := Reg.init reg, stack := [] }
+
+inductive Tok where
+  | op (o : Op)          -- an operation made outside any `create_agent` (ignored while a creation is in progress)
+  | enter (k : Nat)      -- `create_agent(k, …)` is called
+  | facDone              -- the factory of the innermost creation returns; its `initialize()` starts
+  | leave                -- `initialize()` of the innermost creation returns; the agent is registered
+deriving Repr
+
+def register (f : Fac) (r : Reg) (fr : Frame) : Reg :=
+  { r with agents := r.agents ++ [{ id := fr.id, ty := f fr.key fr.id, state := 0, key := fr.key }]
+           tmap := fun t => if t = fr.key then r.tmap t ++ [fr.id] else r.tmap t }
+
+def bump (r : Reg) (b : Bool) : Reg := if b then { r with next := r.next + 1 } else r
+
+def stepN (n : CfgN) (f : Fac) (s : NReg) : Tok → NReg
+  | .op o => if s.stack.isEmpty then { s with r := step f s.r o } else s
+  | .enter k =>
+      if s.r.reg k then
+        { r := bump { s.r with ever := s.r.ever ++ [s.r.next] } n.idReservedBeforeFactory
+          stack := { id := s.r.next, key := k, inFactory := true } :: s.stack }
+      else s
+  | .facDone =>
+      match s.stack with
+      | fr :: rest =>
+        if fr.inFactory then
+          { r := bump s.r (!n.idReservedBeforeFactory && n.idReservedBeforeInitialize)
+            stack := { fr with inFactory := false } :: rest }
+        else s
+      | [] => s
+  | .leave =>
+      match s.stack with
+      | fr :: rest =>
+        if fr.inFactory then s
+        else { r := bump (register f s.r fr) (!n.idReservedBeforeFactory && !n.idReservedBeforeInitialize), stack := rest }
+      | [] => s
+
+def runN (n : CfgN) (f : Fac) (s : NReg) (toks : List Tok) : NReg := toks.foldl (stepN n f) s
+
+/-- no `create_agent` is called while a FACTORY is running (re-entrant creation from `initialize()` only) -/
+def facNestFree (n : CfgN) (f : Fac) : NReg → List Tok → Bool
+  | _, [] => true
+  | s, t :: rest =>
+    (match t with
+     | .enter k => !s.r.reg k || (match s.stack with | fr :: _ => !fr.inFactory | [] => true)
+     | _ => true) && facNestFree n f (stepN n f s t) rest
+
+def topInFactory (s : NReg) : Bool := match s.stack with | fr :: _ => fr.inFactory | [] => false
+
 end Bptk.C14
